@@ -48,8 +48,9 @@ struct vf_ec_ghost {
 	struct { unsigned n; unsigned long bn[VF_IO_LOG], m[VF_IO_LOG], last_bn, last_m; vf_bnv_t val; } mod;
 	struct { unsigned n; unsigned long dst[VF_IO_LOG], src[VF_IO_LOG]; } assign;
 	struct { unsigned n; unsigned long bn[2], m[2]; } reduce;
-	struct { unsigned n; unsigned long d, bn, m; } mult_digit;
-	struct { unsigned n; unsigned long a, b; int r; } cmp;
+	struct { unsigned n, n3; unsigned long d, bn, m; } mult_digit;
+	struct { unsigned n; unsigned long a, b; int r, r0, r1; } cmp;
+	struct { int st; unsigned n; int fn; unsigned long a, b, c; } pop;
 	struct { unsigned n; unsigned long buf[VF_IO_LOG]; size_t size[VF_IO_LOG]; unsigned long bn[VF_IO_LOG]; } imp, exp;
 } vf_g;
 
@@ -85,6 +86,17 @@ struct vf_ec_ghost {
 #define vf_n_restore_y		vf_g.restore_y.n
 #define vf_restore_y_odd	vf_g.restore_y.odd
 #define vf_restore_y_point	vf_g.restore_y.point
+/* projective / affine point operations of elliptic_curve.h as replaced callees: last status, call
+ * count, WHICH function (VF_POP_*), operand identities */
+#define vf_st_pop		vf_g.pop.st
+#define vf_n_pop		vf_g.pop.n
+#define vf_pop_fn		vf_g.pop.fn
+#define vf_pop_a		vf_g.pop.a
+#define vf_pop_b		vf_g.pop.b
+#define vf_pop_c		vf_g.pop.c
+enum { VF_POP_none, VF_POP_import_affine, VF_POP_norm, VF_POP_export_affine, VF_POP_add, VF_POP_sub, VF_POP_dbl_n,
+	VF_POP_add_mix, VF_POP_sub_mix, VF_POP_fpx_mult, VF_POP_unkpt_mult, VF_POP_unkpt_pre, VF_POP_fpx_mult_affine,
+	VF_POP_unkpt_mult_affine, VF_POP_twin_mult, VF_POP_bin_mult };
 /* the bn_t-level sign / verify / dh / key_gen when they are callees of the byte-string wrappers */
 #define vf_st_core		vf_g.core.st
 #define vf_n_core		vf_g.core.n
@@ -136,7 +148,10 @@ struct vf_ec_ghost {
 #define vf_cmp_a		vf_g.cmp.a
 #define vf_cmp_b		vf_g.cmp.b
 #define vf_cmp_r		vf_g.cmp.r
+#define vf_cmp_r0		vf_g.cmp.r0	/* result of the first / second bn_cmp */
+#define vf_cmp_r1		vf_g.cmp.r1
 #define vf_n_mult_digit		vf_g.mult_digit.n
+#define vf_n_mult_digit3	vf_g.mult_digit.n3	/* calls with digit 3 (the 3 X^2 of the doubling formulas) */
 #define vf_mult_digit_d		vf_g.mult_digit.d
 #define vf_mult_digit_bn	vf_g.mult_digit.bn
 #define vf_mult_digit_m		vf_g.mult_digit.m
